@@ -94,6 +94,11 @@ def make_cases(seed, tier):
     for f in (b"-18446744073709551615", b"-18446744073709551516", b"-0", b"-00"):
         for e in ("crypt_rn", "crypt_r", "crypt_ra", "crypt"):
             cases.append(("sha1-cost/sha1crypt", b"pw", b"$sha1$" + f + b"$saltsalt", e, "="))
+    # a forbidden byte far behind the part of the setting the method reads (settings longer than the output field)
+    for m, s in bases:
+        for tail in (b"x" * 380 + b":", b"y" * 400 + b"\n", b"z" * 384 + b"\\", b"w" * 600 + b"!abc"):
+            for sep in (b"$", b""):
+                cases.append(("late-bad-char/" + m, b"pw", s + sep + tail, rng.choice(entries), "="))
     # sha-crypt round counts beyond the documented 999,999,999, in particular 2^32 + small and 2^64 + small
     for t in (b"$5$", b"$6$"):
         for n in (2 ** 32 + 1000, 2 ** 32 + 5000, 2 ** 32 + 99999, 2 ** 33 + 1000, 2 ** 64 + 1000, 10 ** 9, 10 ** 10 + 1000):
